@@ -1,7 +1,7 @@
 #!/usr/bin/env python3
 """C16 (real binary): accounting on real sockets. One long history per proxy configuration (historySize x useSplice):
 (1) every ordered pair of operations from the alphabet {relayed, early data, origin closes first, denied, connect
-refused, dead upstream proxy, aborted, handshake garbage, handshake EOF, relayed via an upstream proxy} x {http, https,
+refused, dead upstream proxy, aborted, handshake garbage, handshake EOF, relayed via an upstream proxy, relayed / refused through nested load balancers (the record must name the leaf connector)} x {http, https,
 socks5, socks4, reverse} run strictly one after the other; (2) groups of three connections held open together (all must
 be listed live, with distinct ids) and closed in every order; (3) a burst larger than the history with the log rotated
 (rename + POST /logrotate or SIGUSR1) in the middle. At every checkpoint: /live, /history (newest-first, bounded) and
@@ -15,6 +15,8 @@ ensure_certs()
 THOROUGH = tier() == 'thorough'
 echo = Origin('echo')
 echo2 = Origin('echo')
+echo3 = Origin('echo')
+CLOSED_LB = free_port()
 def once(c, a, rec):
     c.sendall(b'BYE!!')
     c.close()
@@ -77,10 +79,14 @@ def mk(hsize, splice):
         {'name': 'socks', 'bind': f"127.0.0.1:{p['socks']}"},
         {'name': 'rev', 'type': 'reverse', 'bind': f"127.0.0.1:{p['rev']}", 'target': f'127.0.0.1:{echo.port}'}],
         'connectors': [{'name': 'direct'}, {'name': 'up', 'type': 'http', 'server': '127.0.0.1', 'port': hopb_port},
-                       {'name': 'dead', 'type': 'http', 'server': '127.0.0.1', 'port': DEADP}],
+                       {'name': 'dead', 'type': 'http', 'server': '127.0.0.1', 'port': DEADP},
+                       {'name': 'lb-inner', 'type': 'loadbalance', 'connectors': ['direct']},
+                       {'name': 'lb-outer', 'type': 'loadbalance', 'connectors': ['lb-inner']}],
         'rules': [{'filter': 'request.target.host == "deny.test"', 'target': 'deny'},
                   {'filter': 'request.target.host == "dead.test"', 'target': 'dead'},
                   {'filter': f'request.target.port == {echo2.port}', 'target': 'up'},
+                  {'filter': f'request.target.port == {echo3.port}', 'target': 'lb-outer'},
+                  {'filter': f'request.target.port == {CLOSED_LB}', 'target': 'lb-inner'},
                   {'target': 'direct'}],
         'accessLog': {'path': 'access.log', 'format': 'json'},
         'metrics': {'bind': f"127.0.0.1:{p['api']}", 'ui': None, 'historySize': hsize},
@@ -148,8 +154,13 @@ class Conn:
     def open(self):
         """first half: everything up to the point where the connection is held open; returns False when it already ended"""
         k = self.kind
-        if k in ('relay', 'early', 'abort', 'via-up', 'hold'):
-            o = echo2 if k == 'via-up' else echo
+        if k == 'via-lb-refused':
+            self._request('127.0.0.1', CLOSED_LB)
+            self.connector = 'direct'   # the member the balancer asked, not the balancer
+            self.terminal = 'ErrorOccured'
+            return True
+        if k in ('relay', 'early', 'abort', 'via-up', 'hold', 'via-lb'):
+            o = echo2 if k == 'via-up' else echo3 if k == 'via-lb' else echo
             early = b'EARLY' if k == 'early' else b''
             if self.listener == 'rev':
                 self.target = f'127.0.0.1:{echo.port}'
@@ -163,7 +174,7 @@ class Conn:
             if early:
                 got = self.rest + recv_exact(self.sock, 5 - len(self.rest), 5)
                 n = len(got)
-            msg = {'relay': b'payload', 'early': b'abc', 'abort': b'abrt', 'via-up': b'via-up', 'hold': b'h'}[k]
+            msg = {'relay': b'payload', 'early': b'abc', 'abort': b'abrt', 'via-up': b'via-up', 'hold': b'h', 'via-lb': b'via-lb'}[k]
             self.sock.sendall(msg)
             got = recv_exact(self.sock, len(msg), 5)
             self.up = self.down = n + len(got)
@@ -250,7 +261,7 @@ class Conn:
             pass
         self.sock = None
 
-KINDS = ['relay', 'early', 'origin-closes', 'denied', 'refused', 'dead-upstream', 'abort', 'garbage', 'eof', 'via-up']
+KINDS = ['relay', 'early', 'origin-closes', 'denied', 'refused', 'dead-upstream', 'abort', 'garbage', 'eof', 'via-up', 'via-lb', 'via-lb-refused']
 def alphabet():
     out = []
     for l in ('http', 'https', 'socks5', 'socks4', 'rev'):
@@ -559,7 +570,7 @@ for cfgc, r in zip(configs, results):
     if not isinstance(r, int):
         machinery(f'{cfgc}: {r}')
 hopb.stop()
-for o in (echo, echo2, bye, sink):
+for o in (echo, echo2, echo3, bye, sink):
     o.stop()
 if evals < 300 or len(distinct) < 30:
     machinery(f'vacuous: evals={evals} distinct={len(distinct)}')
